@@ -443,10 +443,11 @@ def check_ranges(ctx, F, adt, order, range_ty, table_const, code_fn):
     adt_r = F.adts[range_ty]
     fields = [f["name"] for f in adt_r["variants"][0]["fields"]]
     tys = [f["ty"] for f in adt_r["variants"][0]["fields"]]
-    if tys == ["usize", "usize"]:
-        return check_ranges_half_open(ctx, F, rule, short, range_ty, table_const, code_fn, order, it0, pi0)
+    if tys == ["usize", "usize"] or tys == ["std::ops::Range<usize>"]:
+        return check_ranges_half_open(ctx, F, rule, short, range_ty, table_const, code_fn, order, it0, pi0,
+                                      nested=(tys == ["std::ops::Range<usize>"]))
     if tys.count("usize") != 2 or tys.count("bool") != 1:
-        raise U(rule, f"{range_ty} is not (usize, usize, bool) or (usize, usize)")
+        raise U(rule, f"{range_ty} is not (usize, usize, bool), (usize, usize) or (Range<usize>)")
     f_bool = tys.index("bool")
     shapes = {}
     for ctor, incl in (("new", False), ("inclusive", True)):
@@ -537,9 +538,22 @@ def check_ranges(ctx, F, adt, order, range_ty, table_const, code_fn):
         ctx.violation(rule, f"{it.path}|arms", "into_iter does not have one inclusive and one exclusive slicing arm", fn=it.path, file=it.file, line=it.line)
 
 
-def check_ranges_half_open(ctx, F, rule, short, range_ty, table_const, code_fn, order, it, pi):
+def check_ranges_half_open(ctx, F, rule, short, range_ty, table_const, code_fn, order, it, pi, nested=False):
     """second representation: (start, end) with `end` always exclusive -- new -> (code(a), code(b)), inclusive ->
-    (code(a), code(b) + 1), all -> (0, len), into_iter -> table[start..end]"""
+    (code(a), code(b) + 1), all -> (0, len), into_iter -> table[start..end]; with nested=True the two bounds live in one
+    `std::ops::Range<usize>` field and into_iter slices the table by that field"""
+    def parts_of(r):
+        if r[0] != "agg" or not r[1].startswith("adt:" + range_ty):
+            return None
+        if not nested:
+            return list(r[2]) if len(r[2]) == 2 else None
+        if len(r[2]) != 1:
+            return None
+        inner = P.strip(r[2][0])
+        if inner[0] == "agg" and inner[1].endswith("Range::Range") and len(inner[2]) == 2:
+            return list(inner[2])
+        return None
+
     def code_of_param(t, k):
         s_ = P.strip(t)
         for _ in range(4):
@@ -556,23 +570,25 @@ def check_ranges_half_open(ctx, F, rule, short, range_ty, table_const, code_fn, 
         fn = F.fn(f"{range_ty}::{ctor}")
         ctx.analysed([fn])
         r = P.Prov(fn).local(0)
-        if not (r[0] == "agg" and r[1].startswith("adt:" + range_ty) and len(r[2]) == 2):
+        parts = parts_of(r)
+        if parts is None:
             raise U(rule, f"{ctor} does not build the range by a struct literal", fn)
-        e = P.strip(r[2][1])
+        e = P.strip(parts[1])
         if plus:
             e_ok = e[0] == "bin" and e[1] == "Add" and P.const_int(e[3]) == 1 and code_of_param(e[2], 2)
         else:
             e_ok = code_of_param(e, 2)
-        if code_of_param(r[2][0], 1) and e_ok:
+        if code_of_param(parts[0], 1) and e_ok:
             ctx.ok(rule, f"{short}::{ctor}(a, b) = (code(a), code(b){' + 1' if plus else ''}) half-open", sample=True)
         else:
             ctx.violation(rule, f"{fn.path}|fields", f"{short}::{ctor} stores {P.show(r)[:160]}; expected (code(start), code(end){' + 1' if plus else ''})",
                           fn=fn.path, file=fn.file, line=fn.line)
     fn = F.fn(f"{range_ty}::all")
     r = P.Prov(fn).local(0)
-    end = P.strip(r[2][1]) if r[0] == "agg" and len(r[2]) == 2 else None
+    parts = parts_of(r)
+    end = P.strip(parts[1]) if parts else None
     end_ok = end is not None and (P.const_int(end) == len(order) or (end[0] in ("call", "un", "len")))
-    if r[0] == "agg" and len(r[2]) == 2 and P.const_int(r[2][0]) == 0 and end_ok:
+    if parts and P.const_int(parts[0]) == 0 and end_ok:
         ctx.ok(rule, f"{short}::all() = (0, len) half-open")
     else:
         ctx.violation(rule, f"{fn.path}|fields", f"{short}::all stores {P.show(r)[:120]}", fn=fn.path, file=fn.file, line=fn.line)
@@ -583,8 +599,11 @@ def check_ranges_half_open(ctx, F, rule, short, range_ty, table_const, code_fn, 
         bi, t = slices[0]
         base = P.strip(pi.operand(t["args"][0]))
         rng = P.strip(pi.operand(t["args"][1]))
-        good = base[0] == "named" and base[1] == table_const and rng[0] == "agg" and rng[1].endswith("Range::Range") and \
-            P.strip(rng[2][0]) == ("field", ("param", 1), 0) and P.strip(rng[2][1]) == ("field", ("param", 1), 1)
+        if nested:
+            good = base[0] == "named" and base[1] == table_const and rng == ("field", ("param", 1), 0)
+        else:
+            good = base[0] == "named" and base[1] == table_const and rng[0] == "agg" and rng[1].endswith("Range::Range") and \
+                P.strip(rng[2][0]) == ("field", ("param", 1), 0) and P.strip(rng[2][1]) == ("field", ("param", 1), 1)
     if good:
         ctx.ok(rule, f"into_iter: {table_const}[start..end]", sample=True)
     else:
